@@ -621,6 +621,11 @@ def run(ctx, res):
     for b in bad[:3]:
         res.violation("addon output relayed differently from the model (rc=%s)" % b["rc"], dict(case=b["case"], impl=b.get("impl"), model=b["model"]), concrete=True, key=None)
 
+    # a broken implementation fails on most cases: keep the first few new failing inputs, every known-finding observation
+    _new = [v for v in res.violations if v.get("key") is None]
+    res.violations = [v for v in res.violations if v.get("key") is not None] + _new[:6]
+    if len(_new) > 6:
+        res.extra["further_failing_inputs_not_stored"] = len(_new) - 6
     # summaries of several addons must all reach the whole-program phase (with and without build dir)
     bad_s = []
     nsum = 40 if ctx.tier == "thorough" else 8
